@@ -9,6 +9,10 @@ from ..core import CTX, attempt, held, violated, peek, short
 from .. import gen, model, contracts
 
 PROP = "C02"
+LEVEL_TEXT = 'Address-sanitizer analogue for ragged indexing: unique cell ids, list-model oracle (Python slice semantics), systematic sweep of all column slices with bounds in -5..5 and steps ±1..3 over all shapes with <=2 (quick) / <=3 (thorough) rows of length 0..3, plus seeded index grammar on fresh, unmaterialised (4 kinds), ufunc-result and astype-result receivers, incl. 130001-row arrays. Exploration.'
+LEVEL_NOTE = "trusts numpy 2.x, CPython (copy.copy, slice semantics, big ints) and the reference model in rtmon/props/c02.py; decides the executions it produces, nothing more"
+TECHNIQUE = 'runtime monitoring: unique-id monitor + list-model oracle; systematic small-scope sweep + seeded random index grammar'
+DESIGN_REF = "DESIGN.md sections 0, 5 (C02), 7"
 RULE = ("case = (row lengths, row selector[, column selector]) on an int64 array of unique cell ids; "
         "directed list + systematic sweep of column slices over all shapes with rows of length 0..3 + seeded random index "
         "grammar; distinct = hash of the case; non-trivial = array has >= 2 rows and >= 1 non-empty row and the "
